@@ -54,3 +54,8 @@ Fixpoint encode_tops_sw (file : list N) (ts : list topbox) (w : swr) : bool * sw
 
 (* bits.NewFixedSliceWriter(size) *)
 Definition sw_new (size : N) : swr := mkSW size [] false.
+
+(* Fragment.AddSampleToTrack / AddSample / AddFullSampleToTrack (mp4/fragment.go), the part that concerns the mdat
+   of a fragment written lazily: `f.Mdat.lazyDataSize += uint64(s.Size)` for every sample added, starting from 0
+   (CreateFragment) - the payload size Encode will announce, as a function of the sizes of the samples added *)
+Definition lazy_size_after (sizes : list N) : N := fold_left (fun x s => u64 (x + s)) sizes 0.
